@@ -327,13 +327,18 @@ pub struct WsPeer {
 }
 
 impl WsPeer {
-	pub async fn send(&mut self, data: &[u8], binary: bool) {
-		if binary || std::str::from_utf8(data).is_err() {
-			self.sender.send_binary(data).await.unwrap();
+	/// `false`: the message could not be written (the server has closed the connection)
+	pub async fn send(&mut self, data: &[u8], binary: bool) -> bool {
+		let r = if binary || std::str::from_utf8(data).is_err() {
+			self.sender.send_binary(data).await
 		} else {
-			self.sender.send_text(std::str::from_utf8(data).unwrap()).await.unwrap();
+			self.sender.send_text(std::str::from_utf8(data).unwrap()).await
+		};
+		let ok = r.is_ok() && self.sender.flush().await.is_ok();
+		if !ok {
+			*self.closed.lock().unwrap() = true;
 		}
-		self.sender.flush().await.unwrap();
+		ok
 	}
 	/// let a gated peer start reading
 	pub fn release(&self) {
